@@ -93,3 +93,10 @@ CLAIMS["C25"] = {"engine": "runestone", "level": "exploration",
                  "text": "the real Runestone::decipher is run on transactions whose payload encodes enumerated and structured-random integer sequences and on script-level classes; TLC computes Decipher(ints, outputs) from the specification-level definition (spec/Runestone.tla) and requires exact equality of the artifact (kind, flaw by the documented precedence, edicts, etching fields, mint, pointer, what a cenotaph keeps); random well-formed runestones are enciphered and must decipher back with edicts in rune-id order; random payload bytes for totality",
                  "note": "trusted: TLC, the harness script/transaction builder; the byte-level varint layer is C26; integer sequences are enumerated over class alphabets, not all u128 values",
                  "technique": "TLA+ definition of deciphering (BigNat) + TLC trace validation of the real decipher/encipher on enumerated integer sequences"}
+
+ENGINES.append({"name": "envelope", "path": "spec/Envelope.tla", "serves_properties": ["C27"],
+                "kind_free_text": "TLA+ model of the envelope instruction automaton and of the field layout of reveal scripts; EnvelopeModel explores every token string up to length 6; EnvelopeTrace validates the real parser and builder"})
+CLAIMS["C27"] = {"engine": "envelope", "level": "model_checking",
+                 "text": "TLC explores the envelope automaton over every token string up to length 6 (totality, payloads are pushes, a well-formed envelope is found with exactly its payload, nothing without the OP_FALSE OP_IF 'ord' prefix); the same strings (up to length 5/6) are written as real tapscripts and the real RawEnvelope parser must return exactly ParseScript(tokens) with consecutive indices; inscriptions built by ord's reveal-script builder with all field/length combinations must parse back to the same field contents (length + checksum per field), with the push layout and duplicate flag the layout rules predict; compact encodings of pointer/delegate/parent values are checked against the little-endian trimmed definition; arbitrary witness bytes never panic",
+                 "note": "trusted: TLC, the harness; field contents are compared by length and 32-bit checksum; token strings abstract push contents",
+                 "technique": "TLC model checking of the envelope automaton (EnvelopeModel) + TLA+ trace validation of the real parser/builder"}
